@@ -250,7 +250,13 @@ func cmdCheck(prop, tier string) int {
 		for _, d := range dec {
 			h = (h ^ uint64(d+1)) * 1099511628211
 		}
-		return h%97 == 0 || len(dec) == 0
+		zero := true
+		for _, d := range dec {
+			if d != 0 {
+				zero = false
+			}
+		}
+		return h%11 == 0 || zero
 	}
 	for _, sp := range specs {
 		fn := hp.Func(sp.Name)
